@@ -71,9 +71,9 @@ STRS_MORE = ["A", "aa", "\U0001F600", "\uffff", "ababab", "1", "\x00", "\u03a9",
 OTHERS = [None, True, False]
 SEQS = [[1, 2], (1, 2), [], ()]
 SEQS_MORE = [[0], (7, 7, 7)]
-SETS = [frozenset(), frozenset([1]), frozenset([1, 2]), frozenset([2, 3]), {1, 2}]      # the last one is a mutable set
-DICTS = [{}, {1: 10}, {1: 11, 2: 20}]
-SETS_MORE = [frozenset([0, 1, 2, 3]), {7}, {2: 20, 3: 30}]
+SETS = [frozenset(), frozenset([1, 2]), frozenset([2, 3]), {1, 2}]      # the last one is a mutable set
+DICTS = [{1: 10}, {1: 11, 2: 20}]
+SETS_MORE = [frozenset([1]), frozenset([0, 1, 2, 3]), {7}, {}, {2: 20, 3: 30}]
 
 BINARY = [(c, sp) for c, _, ar, sp in G.OPS if ar == 2]
 UNARY = [(c, sp) for c, _, ar, sp in G.OPS if ar == 1]
@@ -104,8 +104,8 @@ def random_scalars(rng, n):
 
 CONFIGS = G.CONFIGS
 # the configurations other than the default one run a pair grid over this smaller set
-SMALL = [0, 1, -7, 2 ** 63 + 1, 0.0, -2.5, 1e308, "", "a", "ab", "e\u0301", None, True, False, [1, 2], (1, 2), [], (),
-         frozenset([1]), frozenset([1, 2]), {2, 3}, {}, {1: 10}, {1: 11, 2: 20}]
+SMALL = [0, 1, -7, 2 ** 63 + 1, 0.0, -2.5, "", "a", "e\u0301", None, True, False, [1, 2], (1, 2), [],
+         frozenset([1]), frozenset([1, 2]), {2, 3}, {1: 10}, {1: 11, 2: 20}]
 
 
 def corpus_values(full, special):
@@ -113,7 +113,7 @@ def corpus_values(full, special):
     if full:
         vals = vals + INTS_MORE + FLOATS_MORE + STRS_MORE + SEQS_MORE + SETS_MORE
     if special:
-        vals = vals + FLOATS_SPECIAL
+        vals = vals + (FLOATS_SPECIAL if full else [float("inf"), float("nan")])
     return vals
 
 
@@ -810,6 +810,10 @@ def too_big(case):
     vals = case["vals"]
     if "+" in case["ops"] and any(kind(v) == "set" for v in vals) and not all(isinstance(v, frozenset) for v in vals):
         return True     # concatenation that iterates a set: the iteration order is not modelled
+    if case["ops"] == ["in"] and len(vals) == 2 and kind(vals[1]) in ("set", "dict") and (
+            kind(vals[0]) in ("list", "dict") or (kind(vals[0]) == "set" and not isinstance(vals[0], frozenset)
+                                                  and kind(vals[1]) == "dict")):
+        return True     # unhashable (non-scalar) left operand looked up in a set/dict: Python TypeError, outside C15
     prod = 1
     for v in vals:
         if kind(v) == "int" and 1 < v < 2 ** 62:
@@ -868,7 +872,8 @@ def correspondence(run):
             run.cov["skipped"] += 1
             continue
         meta.append((case, plain, ran))
-        if has_float(case, plain) or (len(case["vals"]) == 3 and any(family(v) == "num" for v in case["vals"])):
+        if (has_float(case, plain) or (len(case["vals"]) == 3 and any(family(v) == "num" for v in case["vals"]))) \
+                and (not run.quick or len(meta) % 2 == 0):
             terms64.append(case_term64(case, plain, ran, mode == "unchecked"))
             idx64.append(len(meta) - 1)
     bad = run.coq_mismatches(HEADER, "pcase", "case_ok registry_of", terms, shard=400)
